@@ -251,6 +251,35 @@ def shard(ctx):
                     ctx.violation("named-not", "named-rule negation: got %s expected %s\n%s" % (got, exp, text),
                                   {"rules": text, "data": DOCS, "law": "named", "expected": list(exp)})
 
+    # ---- parameterised rule calls: `not P(args)` is PASS exactly when the call is not PASS (same inversion as for `not R`)
+    if ctx.mine(1):
+        gad = {"PASS": "%x == 5", "FAIL": "%x == 6", "SKIP": "lm[ x == 99 ].x == %x"}
+        for want, body in gad.items():
+            for spelling in ("not ", "!", "NOT "):
+                for arg in ("i", "5", "l1[0]", "l1[*]"):
+                    for msg in ("", " <<custom>>"):
+                        text = ("rule P(x) {\n    %s\n}\nrule u {\n    P(%s)%s\n}\nrule n {\n    %sP(%s)%s\n}\n"
+                                "rule wn when %sP(%s) {\n    i == 5\n}\n"
+                                "rule bn {\n    when %sP(%s) {\n        i == 5\n    }\n}\n"
+                                "rule dn {\n    i == 6 or %sP(%s)%s\n}\n"
+                                % (body, arg, msg, spelling, arg, msg, spelling, arg, spelling, arg, spelling, arg, msg))
+                        res = ctx.w.run({"k": "rc", "data": DOCS, "rules": text, "verbose": False})
+                        kind, st, _ = obs.rc_statuses(res)
+                        ctx.res.cases += 1
+                        if kind != "ok":
+                            ctx.violation("call-not:error", "negated-call file failed: %s\n%s" % (res.get("err", "")[:200], text),
+                                          {"rules": text, "data": DOCS, "law": "call"})
+                            continue
+                        u = st.get("u")
+                        ctx.res.distinct.add(("call", want, spelling, arg, bool(msg), u, st.get("n")))
+                        exp_n = "FAIL" if u == "PASS" else "PASS"
+                        exp_w = "PASS" if exp_n == "PASS" else "SKIP"
+                        got = (u, st.get("n"), st.get("wn"), st.get("bn"), st.get("dn"))
+                        exp = (want, exp_n, exp_w, exp_w, exp_n)
+                        if got != exp:
+                            ctx.violation("call-not", "negated parameterised call: (u, n, wn, bn, dn) = %s expected %s\n%s" % (got, exp, text),
+                                          {"rules": text, "data": DOCS, "law": "call", "expected": list(exp)})
+
     # ---- random clauses on random documents (equivalence laws only; flip law when a plain key path hits a scalar)
     n = 300 if ctx.quick else 12000
     rng = ctx.rng("rand")
@@ -312,6 +341,10 @@ def replay(case, w):
     if law == "named":
         exp = case.get("expected")
         got = [st.get(k) for k in ("R", "u", "n", "wu", "wn", "bu", "bn")]
+        return got == exp, "got %s expected %s" % (got, exp)
+    if law == "call":
+        exp = case.get("expected")
+        got = [st.get(k) for k in ("u", "n", "wn", "bn", "dn")]
         return got == exp, "got %s expected %s" % (got, exp)
     a, b = case.get("a"), case.get("b")
     if law in ("spelling", "prefix-eq-opnot", "double-negation", "order-inverse"):
